@@ -229,8 +229,25 @@ class Ctx:
             self.known.append(what)
 
 
+_PROCESS_STREAMS = (sys.stdout, sys.stderr)       # the streams this process started with: the verdict lines go there, whatever happened
+
+
+def restore_streams(ctx=None):
+    """the verdict must reach the caller also when something the check ran left another object in sys.stdout / sys.stderr (that is a
+    finding about the code under test, reported as such, never a reason to stay silent)"""
+    replaced = [n for n, cur, orig in (('sys.stdout', sys.stdout, _PROCESS_STREAMS[0]), ('sys.stderr', sys.stderr, _PROCESS_STREAMS[1])) if cur is not orig]
+    sys.stdout, sys.stderr = _PROCESS_STREAMS
+    if replaced and ctx is not None:
+        ctx.violation('process-streams-replaced', {
+            'what': 'when the check finished, %s of the checking process was not the stream the process started with: something that ran in it replaced the '
+                    'stream behind the harness (every harness puts back what it installs)' % ' and '.join(replaced),
+            'theorem_or_correspondence': 'harness of %s: process-wide streams at the end of the check' % ctx.pid}, False)
+    return replaced
+
+
 def finish(ctx):
     """print KNOWN-FINDING / VIOLATION lines, write evidence, return exit code"""
+    restore_streams(ctx)
     wall = time.time() - ctx.t0
     pr = ctx.proof or {}
     cov = {
